@@ -84,6 +84,7 @@ type seeCtx struct {
 	// retAlias: result i of an inlined call is the address of an object the callee
 	// allocated (a constructor helper); it is re-observed at every use, not snapshotted
 	retAlias map[ssa.Value]map[int]*ssa.Alloc
+	up       *seeCtx // environment of the calling frame (inlined callees), for values of enclosing functions
 }
 
 // Of returns the expression for v evaluated in its own function, without
@@ -100,7 +101,7 @@ func (x *Extractor) Of(v ssa.Value) *Expr {
 
 func (c *seeCtx) child(fn *ssa.Function) *seeCtx {
 	n := &seeCtx{x: c.x, depth: c.depth + 1, params: map[*ssa.Parameter]*Expr{}, fvs: map[*ssa.FreeVar]*Expr{},
-		stack: map[*ssa.Function]bool{}, active: map[ssa.Value]bool{}, memo: map[ssa.Value]*Expr{}, fn: fn}
+		stack: map[*ssa.Function]bool{}, active: map[ssa.Value]bool{}, memo: map[ssa.Value]*Expr{}, fn: fn, up: c}
 	for k := range c.stack {
 		n.stack[k] = true
 	}
@@ -537,10 +538,14 @@ func (c *seeCtx) load1(addr ssa.Value) *Expr {
 	case *ssa.Global:
 		return &Expr{Op: OpGlobal, Name: a.Pkg.Pkg.Name() + "." + a.Name(), Obj: a.Object(), Typ: a.Type().(*types.Pointer).Elem()}
 	case *ssa.FreeVar:
-		if bv := freeVarBinding(a); bv != nil {
-			if b, ok := c.fvs[a]; ok {
-				_ = b
+		// an explicit binding (the closure value was built where its captured variables are known)
+		if b, ok := c.fvs[a]; ok {
+			if b.Op == OpNew && len(b.Args) == 1 {
+				return b.Args[0]
 			}
+			return b
+		}
+		if bv := freeVarBinding(a); bv != nil {
 			return c.load1(bv)
 		}
 		return &Expr{Op: OpFreeVar, Name: a.Name(), Typ: a.Type()}
@@ -1240,13 +1245,28 @@ func (e *Expr) Contains(pred func(*Expr) bool) bool {
 // instruction belongs to.
 func (c *seeCtx) envFor(in ssa.Instruction) *seeCtx {
 	f := in.Parent()
-	if c.ps == nil || f == c.fn {
+	if f == c.fn {
+		return c
+	}
+	if c.ps == nil {
+		for e := c.up; e != nil; e = e.up {
+			if e.fn == f {
+				return e
+			}
+		}
 		return c
 	}
 	for i := len(c.ps.segs) - 1; i >= 0; i-- {
 		sg := c.ps.segs[i]
 		if sg.env != nil && sg.b.Parent() == f {
 			return sg.env
+		}
+	}
+	// a frame further up the inlining chain (a closure called in line reads a variable of the
+	// function that created it)
+	for e := c.up; e != nil; e = e.up {
+		if e.fn == f {
+			return e
 		}
 	}
 	return c
